@@ -7,18 +7,22 @@
 (* caller x key x source address x payload hash.  The state space is finite,   *)
 (* so TLC explores every interleaving (no depth bound).                        *)
 EXTENDS Gateway, Json
+CONSTANT Deep
 VARIABLE st
 
 MC_Sets == [s1 |-> [keys |-> <<1, 2>>, weights |-> <<1, 1>>, threshold |-> 2, nonce |-> 0]]
 MC_Keys == [k1 |-> [chain |-> "ab", id |-> "c"],
             k2 |-> [chain |-> "a",  id |-> "bc"],
             k3 |-> [chain |-> "",   id |-> "abc"]]     \* and an empty chain name: ("", "abc") is not ("ab", "c")
-MC_Msgs == [m1a |-> [key |-> "k1", src |-> "sA", dest |-> "app1", ph |-> "p1"],
+DeepMsgs == [m1c |-> [key |-> "k1", src |-> "sA", dest |-> "app2", ph |-> "p1"],
+             m3c |-> [key |-> "k3", src |-> "sA", dest |-> "app1", ph |-> "p2"]]
+MC_Msgs0 == [m1a |-> [key |-> "k1", src |-> "sA", dest |-> "app1", ph |-> "p1"],
             m1b |-> [key |-> "k1", src |-> "sB", dest |-> "app2", ph |-> "p2"],
             m2a |-> [key |-> "k2", src |-> "sA", dest |-> "app1", ph |-> "p1"],
             m2b |-> [key |-> "k2", src |-> "sA", dest |-> "app1", ph |-> "p2"],
             m3a |-> [key |-> "k3", src |-> "sA", dest |-> "app2", ph |-> "p1"],
             m3b |-> [key |-> "k3", src |-> "sB", dest |-> "app2", ph |-> "p1"]]
+MC_Msgs == IF Deep THEN MC_Msgs0 @@ DeepMsgs ELSE MC_Msgs0
 
 GoodProof == [set |-> "s1", sigs |-> <<"Valid", "Valid">>]
 
